@@ -25,6 +25,7 @@ inside its goroutine -/
 def recOut : Tbls.Res → Query.RecOut
   | .ok s => .ok s
   | .errFew => .err
+  | .errThreshold => .err
   | .errDecode => .err
   | .panic _ => .panic
 
@@ -109,7 +110,7 @@ theorem tbls_hrec (cd : Codec G) (hcd : ∀ p, cd.decode (cd.encode p) = some p)
   refine ⟨blsSign cd (f.headD 0) (H c), ?_, ?_⟩
   · show recOut (Tbls.recover cd f (H c) l t n) = _
     rw [hr]; rfl
-  · have := (Props.C03.recover_ok_verifies cd hcd f (H c) t n ht hf hc l _ hr).2.2
+  · have := (Props.C03.recover_ok_verifies cd hcd f (H c) t n ht hc l _ hr).2.2
     show blsVerify cd (f.headD 0) (H c) _ = true
     unfold blsVerify
     rw [this]; rfl
@@ -123,6 +124,7 @@ theorem tbls_htot (cd : Codec G) (f : List F) (H : Bytes → G) (t n : Nat) (ht 
   cases hr : Tbls.recover cd f (H c) l t n with
   | ok s => simp [recOut]
   | errFew => simp [recOut]
+  | errThreshold => simp [recOut]
   | errDecode => simp [recOut]
   | panic s => exact absurd hr (this s)
 
